@@ -1,5 +1,7 @@
 (* C10 -- Conditions and expressions: gate firing, frame scope, errors contained. *)
 From Deep Require Import Base Config Limiter LimiterProofs Cond CondProofs.
+From DeepGen Require Import PTruth PGate.
+From Deep Require Import TieGate.
 
 (* a hit collects only if the limits allow it and its condition evaluated to true *)
 Theorem C10_gate :
@@ -65,3 +67,14 @@ Example C10_example :
   gate (Some [120]) (fun _ => EErr [75;101;121;69;114;114;111;114] [49]) = false /\
   gate (Some [120]) (fun _ => EVal [84;114;117;101]) = true /\ gate (Some [32]) (fun _ => EErr [] []) = true.
 Proof. vm_compute. auto. Qed.
+
+(* ---- tie by translation: ActionContext.can_trigger as it is in /repo/src NOW: limits first, then the condition; a hit
+   passes the gate only with an absent / blank condition or one that EVALUATED to a truth word *)
+Theorem C10_the_code_gate :
+  forall limits cond ts ev,
+  gen_action_can_trigger limits cond ts ev = limits ts && gate cond ev /\
+  (gen_action_can_trigger limits cond ts ev = true ->
+   limits ts = true /\
+   (cond = None \/ exists c, cond = Some c /\ (blank c = true \/ exists t, ev c = EVal t /\ str2bool t = true))).
+Proof. intros. split; [apply tie_action_can_trigger | apply code_gate]. Qed.
+Print Assumptions C10_the_code_gate.
